@@ -192,7 +192,7 @@ crypt_descrypt_rn (const char *phrase, size_t ARG_UNUSED (phr_size),
      each character up by 1 bit and padding on the right with zeroes.  */
   for (i = 0; i < 8; i++)
     {
-      keybuf[i] = (uint8_t)(*phrase << 1);
+      keybuf[i] = (uint8_t)((unsigned char)*phrase << 1);
       if (*phrase)
         phrase++;
     }
@@ -284,7 +284,7 @@ crypt_bigcrypt_rn (const char *phrase, size_t phr_size,
       /* Copy and shift each block as for the traditional DES.  */
       for (i = 0; i < 8; i++)
         {
-          keybuf[i] = (uint8_t)(*phrase << 1);
+          keybuf[i] = (uint8_t)((unsigned char)*phrase << 1);
           if (*phrase)
             phrase++;
         }
@@ -378,7 +378,7 @@ crypt_bsdicrypt_rn (const char *phrase, size_t ARG_UNUSED (phr_size),
     {
       for (i = 0; i < 8; i++)
         {
-          keybuf[i] = (uint8_t)(pkbuf[i] ^ (*phrase << 1));
+          keybuf[i] = (uint8_t)(pkbuf[i] ^ ((unsigned char)*phrase << 1));
           if (*phrase)
             phrase++;
         }
